@@ -150,4 +150,115 @@ def run(ck):
     fl = ck.flow(sy)
     ck.require_fact("S3.blob-bounds", fl, lambda ev: ev.get("e") == "asg" and E.m_is_mem("size")(ev.get("lhs")),
                     E.M(lambda t: E.strip(t).get("k") == "bin" and E.strip(t).get("op") == "<" and E.const(E.strip(t)["l"]) == 1 and "Lock::LockCount" in " ".join(E.mentions(t)), "(1 < LockCount())"), False, "size = n")
+    ck.rule("S4 ARITH(limit tests of SBuf methods cannot wrap): SBuf::size_type is 32 bits wide and unsigned. In a comparison, (a) a sum with a caller-supplied size "
+            "(`pos + n > length()`) is allowed only if every parameter operand has an upper bound established on the path (P <= K, P < K); (b) `K - P` with K a constant "
+            "(maxSize) only with P <= K established. Otherwise a huge argument wraps the test and the method goes on with a length/space beyond its blob instead of "
+            "clamping or throwing (`substr(5, 0xfffffffe)`; `rawSpace(0xfffffff0)`)")
+    n_arith = 0
+    for f in fns:
+        pnames = {p_["d"] for p_ in f.params if (p_.get("iw") or 0) == 32}
+        if not pnames:
+            continue
+        cand = []
+        for b in f.blocks.values():
+            c = (b.get("term") or {}).get("c")
+            if c is None:
+                continue
+            for leaf in E.leaves(c):
+                lf = E.strip(leaf)
+                if not (isinstance(lf, dict) and lf.get("k") == "bin" and lf.get("op") in ("<", "==")):
+                    continue
+                for n_ in E.walk(lf):
+                    if n_.get("k") == "bin" and n_.get("op") in ("+", "-") and (n_.get("iw") or 0) == 32:
+                        ops = [E.strip(n_["l"]), E.strip(n_["r"])]
+                        raw = [o["d"] for o in ops if isinstance(o, dict) and o.get("k") == "ref" and o.get("dk") == "param" and o["d"] in pnames]
+                        if n_["op"] == "+" and raw:
+                            cand.append((b, n_, raw, "sum"))
+                        elif n_["op"] == "-" and E.const(n_["l"]) is not None and isinstance(ops[1], dict) and ops[1].get("k") == "ref" and ops[1].get("d") in pnames and ops[1].get("dk") == "param":
+                            cand.append((b, n_, [ops[1]["d"]], "difference"))
+        if not cand:
+            continue
+        fl = ck.flow(f)
+        for b, node, raw, kind in cand:
+            n_arith += 1
+            sts = [st for st in fl.sites if st.bid == b["id"]]
+            states = [set(st.facts) for st in sts[-1:]] if sts else [set(fs) for nd, fs in fl.IN.items() if nd[0] == b["id"]]
+            if not states:
+                continue        # unreachable block
+            limit = E.const(node["l"]) if kind == "difference" else (1 << 31)
+            unbounded = []
+            for pn in raw:
+                ok = True
+                for fs in states:
+                    hi = None
+                    for fc in fs:
+                        if fc[0] != "A":
+                            continue
+                        t = E.strip(fl.trees[fc[1]])
+                        if not (isinstance(t, dict) and t.get("k") == "bin" and t.get("op") == "<"):
+                            continue
+                        if E.m_is_ref(pn)(t["l"]) and E.const(t["r"]) is not None and fc[2] is True:
+                            hi = min(hi, E.const(t["r"]) - 1) if hi is not None else E.const(t["r"]) - 1
+                        if E.m_is_ref(pn)(t["r"]) and E.const(t["l"]) is not None and fc[2] is False:
+                            hi = min(hi, E.const(t["l"])) if hi is not None else E.const(t["l"])
+                    if hi is None or hi > limit:
+                        ok = False
+                if not ok:
+                    unbounded.append(pn)
+            where = f.where(b["term"].get("l"))
+            if not unbounded:
+                ck.ok("S4.limit-test-no-wrap", where, "%s: %s cannot wrap (its parameter operands are bounded on the path)" % (f.name, E.key(node)))
+            else:
+                ck.violation("S4.limit-test-no-wrap", "S4|%s|%s|%s" % (f.name, kind, ",".join(unbounded)), where, "%s tests a limit with the 32-bit unsigned %s %s although nothing bounds "
+                             "%s on the path: a huge argument wraps the %s, the test passes and the method continues with a length/space beyond its storage instead of clamping or throwing"
+                             % (f.name, kind, E.key(node), " / ".join(unbounded), kind))
+    ck.need(n_arith >= 1, "C48: no additive limit test over a caller-supplied size found in SBuf.cc (reserveSpace's Must(length() <= maxSize - minSpace) vanished?)")
+
+    ck.rule("S5 backward-scan cursors start inside the string: a pointer `start + P` formed from a caller-supplied position P that is then walked *backwards* (--cur, "
+            "no end pointer protects the first dereference) is created only with P < length() established on the path (or P <= length() - X), or after P was clamped "
+            "by `P = length() - X`, X a positive constant or the length of a needle known to be non-empty; with `P <= length()` only, the scan starts on the byte after the "
+            "content (owned by a longer alias of the shared MemBlob) and may report the out-of-range index length()")
+    n_cur = 0
+    is_len = E.M(lambda t: E.strip(t).get("k") == "call" and E.strip(t).get("f") == "SBuf::length" and E.strip(E.strip(t).get("o") or {}).get("k") == "this", "length()")
+
+    def margin(t):
+        """X of `length() - X` if X is a positive constant or <param>.length(); else None"""
+        t = E.strip(t)
+        if not (isinstance(t, dict) and t.get("k") == "bin" and t.get("op") == "-" and is_len(t["l"])):
+            return None
+        x = E.strip(t["r"])
+        if (E.const(x) or 0) >= 1:
+            return ("const", None)
+        if isinstance(x, dict) and x.get("k") == "call" and x.get("f") == "SBuf::length" and E.strip(x.get("o") or {}).get("dk") == "param":
+            return ("call", x)
+        return None
+    for f in fns:
+        pnames = {p_["d"] for p_ in f.params if (p_.get("iw") or 0) == 32}
+        walked_back = {E.strip(ev["lhs"]).get("d") for b in f.blocks.values() for ev in b["ev"] if ev.get("e") == "asg" and ev.get("op") == "--" and E.strip(ev["lhs"]).get("k") == "ref"}
+        for b in f.blocks.values():
+            for ev in b["ev"]:
+                init = E.strip(ev.get("init")) if ev.get("e") == "decl" else None
+                if not (isinstance(init, dict) and init.get("k") == "bin" and init.get("op") == "+" and "*" in (ev.get("t") or "") and ev["d"] in walked_back):
+                    continue
+                ps = [E.strip(o)["d"] for o in (init["l"], init["r"]) if E.strip(o).get("k") == "ref" and E.strip(o).get("dk") == "param" and E.strip(o)["d"] in pnames]
+                if len(ps) != 1:
+                    continue
+                P = ps[0]
+                n_cur += 1
+                inside = E.m_cmp("<", E.m_is_ref(P), is_len)
+                inside2 = E.m_cmp("<", E.M(lambda t: margin(t) is not None, "length() - X"), E.m_is_ref(P))
+                clamp = lambda e, P=P: e.get("e") == "asg" and e.get("op") == "=" and E.m_is_ref(P)(e.get("lhs")) and margin(e.get("rhs")) is not None
+                fl = ck.flow(f, track_atoms={"in": inside, "in2": inside2}, markers={"clamp": clamp}, track_markers=["clamp"])
+                needles = [m[1] for m in [margin(n_) for bb in f.blocks.values() for tr in [e.get("rhs") for e in bb["ev"]] + [(bb.get("term") or {}).get("c")] for n_ in E.walk(tr)] if m and m[0] == "call"]
+                for st in ck.sites(fl, lambda e, ev=ev: e is ev, "%s = ... + %s" % (ev["d"], P), 1):
+                    nonempty = all(st.has(E.M(lambda t, x=x: E.key(t) == E.key(x), E.key(x)), True) for x in needles)
+                    good = st.tracked("in") is True or ((st.tracked("in2") is False or st.env.get("#clamp") == 1) and nonempty)
+                    if good:
+                        ck.ok("S5.cursor-inside", st.where(), "%s: the backward cursor %s starts inside the content" % (f.name, ev["d"]))
+                    else:
+                        ck.violation("S5.cursor-inside", "S5.cursor-inside|%s|%s" % (f.name, ev["d"]), st.where(), "%s: the backward-scan cursor '%s = ... + %s' can be created without "
+                                     "%s < length() (or a clamp to length() - X, X > 0) on the path: the scan may start on the byte just past the string's content"
+                                     % (f.name, ev["d"], P, P), fl.witness(st))
+    ck.need(n_cur >= 3, "C48: expected the backward cursors of rfind/findLastOf/findLastNotOf, found %d" % n_cur)
+
     ck.assume("equivalence with std::string over operation histories is not decided; only the copy-on-write discipline of the SBuf/MemBlob implementation files")
